@@ -75,6 +75,134 @@ def qualname_of(node: ast.AST) -> str:
     return ".".join(reversed(parts))
 
 
+def _is_docstring(st: ast.stmt) -> bool:
+    return isinstance(st, ast.Expr) and isinstance(st.value, ast.Constant) and isinstance(st.value.value, str)
+
+
+def _has_yield(fn: ast.AST) -> bool:
+    todo = list(getattr(fn, "body", []))
+    while todo:
+        n = todo.pop()
+        if isinstance(n, (ast.Yield, ast.YieldFrom)):
+            return True
+        if isinstance(n, FuncNode + (ast.ClassDef, ast.Lambda)):
+            continue
+        todo.extend(ast.iter_child_nodes(n))
+    return False
+
+
+def _returns_only_none(fn: ast.AST) -> bool:
+    todo = list(getattr(fn, "body", []))
+    while todo:
+        n = todo.pop()
+        if isinstance(n, ast.Return) and n.value is not None and not (isinstance(n.value, ast.Constant) and n.value.value is None):
+            return False
+        if isinstance(n, FuncNode + (ast.ClassDef, ast.Lambda)):
+            continue
+        todo.extend(ast.iter_child_nodes(n))
+    return True
+
+
+def fold_impl_delegation(tree: ast.Module) -> List[Tuple[str, str]]:
+    """Undo the `public function delegates to its private _impl` indirection before anything is analysed.
+
+    A function (or method) F whose whole body - apart from a docstring - is `return <T>(...)` (or the bare call `<T>(...)` when T returns nothing) where T is a private
+    (underscore) function of the same module / method of the same class that is named after F (F's name is part of
+    T's name), is mentioned nowhere else in the module,
+    has no decorators, is of the same kind (plain / async / generator) and receives exactly F's own parameters under
+    its own parameter names (positionally or by keyword, `*args` / `**kwargs` passed on as such) computes T's body on
+    F's arguments.  F's body is replaced by T's body (the statements keep their positions in the file) and T is
+    removed, which is the program before `extract the body into _impl` was applied.  Anything less exact is left
+    alone.  Returns the (F, T) names folded."""
+    folded: List[Tuple[str, str]] = []
+    mentions: Dict[str, int] = {}
+    for n in ast.walk(tree):
+        if isinstance(n, ast.Name):
+            mentions[n.id] = mentions.get(n.id, 0) + 1
+        elif isinstance(n, ast.Attribute):
+            mentions[n.attr] = mentions.get(n.attr, 0) + 1
+        elif isinstance(n, ast.Constant) and isinstance(n.value, str) and n.value.isidentifier():
+            mentions[n.value] = mentions.get(n.value, 0) + 1  # getattr(x, "_name") and the like
+
+    def params(fn) -> Tuple[List[str], Optional[str], List[str], Optional[str]]:
+        a = fn.args
+        return [x.arg for x in a.posonlyargs + a.args], (a.vararg.arg if a.vararg else None), [x.arg for x in a.kwonlyargs], (a.kwarg.arg if a.kwarg else None)
+
+    def try_fold(container: List[ast.stmt], in_class: bool) -> None:
+        for F in list(container):
+            if not isinstance(F, FuncNode):
+                continue
+            body = [st for st in F.body if not _is_docstring(st)] if F.body and _is_docstring(F.body[0]) else list(F.body)
+            if len(body) != 1:
+                continue
+            expr_form = isinstance(body[0], ast.Expr) and isinstance(body[0].value, ast.Call)
+            if not expr_form and not (isinstance(body[0], ast.Return) and isinstance(body[0].value, ast.Call)):
+                continue
+            call = body[0].value
+            fpos, fvar, fkwo, fkw = params(F)
+            is_static = any(isinstance(d, ast.Name) and d.id == "staticmethod" for d in F.decorator_list)
+            recv = fpos[0] if (in_class and not is_static and fpos) else None
+            if isinstance(call.func, ast.Attribute) and isinstance(call.func.value, ast.Name) and in_class and recv is not None and call.func.value.id == recv:
+                tname = call.func.attr
+            elif isinstance(call.func, ast.Name) and not in_class:
+                tname = call.func.id
+            else:
+                continue
+            if not tname.startswith("_") or tname.startswith("__") or tname == F.name or mentions.get(tname, 0) != 1:
+                continue
+            if F.name.strip("_") not in tname:
+                continue  # only the private twin named after the function (`_<name>_impl`, `_do_<name>`, `_<name>`)
+            cands = [T for T in container if isinstance(T, FuncNode) and T.name == tname]
+            if len(cands) != 1:
+                continue
+            T = cands[0]
+            if T.decorator_list or type(T) is not type(F) or _has_yield(T) != _has_yield(F) or any(isinstance(d, ast.Name) and d.id in ("classmethod", "staticmethod", "property") for d in F.decorator_list):
+                continue
+            if expr_form and not _returns_only_none(T):
+                continue  # `T(..)` as a statement drops T's result: the same function only if T returns nothing
+            tpos, tvar, tkwo, tkw = params(T)
+            own = fpos[1:] if recv is not None else fpos
+            theirs = tpos[1:] if in_class else tpos
+            if in_class and (not tpos or tpos[0] != recv):
+                continue
+            bound: List[str] = []
+            ok = True
+            for i, a_ in enumerate(call.args):
+                if isinstance(a_, ast.Starred):
+                    ok = ok and isinstance(a_.value, ast.Name) and a_.value.id == fvar == tvar and i == len(call.args) - 1
+                    bound.append("*")
+                elif isinstance(a_, ast.Name) and i < len(theirs) and a_.id == theirs[i]:
+                    bound.append(a_.id)
+                else:
+                    ok = False
+            for k in call.keywords:
+                if k.arg is None:
+                    ok = ok and isinstance(k.value, ast.Name) and k.value.id == fkw == tkw
+                    bound.append("**")
+                elif isinstance(k.value, ast.Name) and k.value.id == k.arg and k.arg in theirs + tkwo:
+                    bound.append(k.arg)
+                else:
+                    ok = False
+            names = [b for b in bound if b not in ("*", "**")]
+            if not ok or len(set(names)) != len(names):
+                continue
+            if set(names) != set(theirs + tkwo) or set(names) != set(own + fkwo):
+                continue
+            if (tvar is not None) != ("*" in bound) or (tkw is not None) != ("**" in bound) or (fvar is not None) != ("*" in bound) or (fkw is not None) != ("**" in bound):
+                continue
+            doc = [F.body[0]] if F.body and _is_docstring(F.body[0]) else []
+            tbody = T.body[1:] if T.body and _is_docstring(T.body[0]) and len(T.body) > 1 else T.body
+            F.body = doc + list(tbody)
+            container.remove(T)
+            folded.append((F.name, T.name))
+
+    try_fold(tree.body, False)
+    for n in ast.walk(tree):
+        if isinstance(n, ast.ClassDef):
+            try_fold(n.body, True)
+    return folded
+
+
 class Repo:
     """Parsed view of ``<root>/semantiva/**/*.py``."""
 
@@ -94,6 +222,7 @@ class Repo:
                 tree = ast.parse(src, filename=rel)
             except (SyntaxError, UnicodeDecodeError) as exc:
                 raise AnalysisError(f"cannot parse {rel}: {exc}") from exc
+            fold_impl_delegation(tree)
             _attach_parents(tree)
             dotted = rel[:-3].replace("/", ".")
             if dotted.endswith(".__init__"):
